@@ -29,6 +29,7 @@ func C09(r *core.Run) {
 	tokenTextOpaque(r)
 	fragmentCoverage(r)
 	astFieldCoverage(r)
+	emptyArrayForm(r)
 }
 
 // C11 — BCL parser is total and every diagnostic points inside the file.
